@@ -123,6 +123,11 @@ def extra_vectors(name, rng, n=6):
     if short in ('DnsRecordTxtValueSpfDirectiveA', 'DnsRecordTxtValueSpfDirectiveMx'):
         mech = b'a' if short.endswith('A') else b'mx'
         return [rng.choice([b'', b'+', b'-', b'~', b'?']) + mech + rng.choice([b'', b':example.com']) + spf_cidr(rng) for _ in range(n)]
+    if short == 'SshKeyExchangeInit':
+        # a boolean octet other than 0 / 1 is TRUE (RFC 4251 section 5): accepted, and canonicalised by compose in one step
+        from harness import sweep as _sweep
+        vs = [v for c, l in _sweep.library_vectors().items() if _sweep.qualname(c) == name for v in l][:2]
+        return [v[:-5] + bytes([b]) + v[-4:] for v in vs for b in (2, 0x80, 0xff) if len(v) > 5]
     if short in ('DnsNameUncompressed', 'DnsRecordMx'):
         # internationalised names: A-labels (xn--) on the wire, U-labels in the object
         names = [[b'xn--bcher-kva', b'example'], [b'xn--r8jz45g', b'xn--zckzah'], [b'www', b'xn--mnchen-3ya', b'de']]
